@@ -7,9 +7,24 @@ import (
 	envoy_rbac_v3 "github.com/envoyproxy/go-control-plane/envoy/config/rbac/v3"
 	envoy_http_v3 "github.com/envoyproxy/go-control-plane/envoy/extensions/filters/network/http_connection_manager/v3"
 
+	"github.com/hashicorp/go-hclog"
+
+	"github.com/hashicorp/consul/agent/proxycfg"
 	"github.com/hashicorp/consul/agent/structs"
+	"github.com/hashicorp/consul/envoyextensions/xdscommon"
 	"github.com/hashicorp/consul/proto/private/pbpeering"
 )
+
+// VerifPublicListener runs the listener code of a connect proxy (makeInboundListener), which
+// injects the RBAC filter built from the snapshot's intentions.
+func VerifPublicListener(snap *proxycfg.ConfigSnapshot) (*envoy_listener_v3.Listener, error) {
+	g := NewResourceGenerator(hclog.NewNullLogger(), nil, false)
+	m, err := g.makeInboundListener(snap, xdscommon.PublicListenerName)
+	if err != nil {
+		return nil, err
+	}
+	return m.(*envoy_listener_v3.Listener), nil
+}
 
 // Verif* export the unexported RBAC translation of agent/xds/rbac.go to the C14 harness.
 
